@@ -107,7 +107,7 @@ def endInfo (st : Style) (b : Box) (pts : List V2) : List String × Bool × Bool
     | .manhattan =>
       let axis := closestaxis (e - nx)
       let al := onAxis axis (e - nx)
-      let e1 : V2 := if al then e else e.had (absV axis) + nx.had ⟨b2r (axis.x = 0), b2r (axis.y = 0)⟩
+      let e1 : V2 := if al then e else manhattanProject axis e nx
       let t1 := (if al then "man:aligned" else "man:projected") ++ (if axis.x ≠ 0 then ":h" else ":v")
       match vectorSnap b e1 nx .manhattan with
       | .error _ => ([t1, "man:snap-error"], false, false)
